@@ -68,6 +68,10 @@ CONFIGS = [
              emit=True, check=False, replay_kw=kw(0, retry=True), max_scenarios=1500),
     ModelCfg("m-n3o3e2-retry", consts(3, 3, 2, OPS_DATA, 1, retry=True), simulate=600, check=False,
              replay_kw=kw(1, retry=True)),
+    # two blocked receivers; a callback sends, cancels (scope / native) and closes the only send handle:
+    # end of stream must not be reported to a receiver while an item is buffered or in transit
+    ModelCfg("m-n2o1e3-rrc", consts(2, 1, 3, '{"recv1"}', 1, env='{"cancel", "native", "esend", "eclose"}'),
+             emit=True, check=False, replay_kw=kw(1)),
     ModelCfg("m-n2o2e1-b0", consts(2, 2, 1, OPS1, 0), emit=True, check=False, replay_kw=kw(0),
              max_scenarios=2500),
     ModelCfg("m-n2o2e1-b1", consts(2, 2, 1, OPS1, 1), emit=True, check=False, replay_kw=kw(1),
